@@ -381,7 +381,18 @@ class StiefelSpec(Spec):
         d, r = c['dim'], c['rank']
         K = len(th)
         if m == 'qr':
-            return np.full(K, float(d))  # Householder QR: orthogonality independent of conditioning
+            # Householder QR: orthogonality independent of conditioning, but a rank-deficient frame is outside the domain of the
+            # orthonormalisation (DESIGN 3.3; Q is not unique there, and torch's complex64 QR returns NaN for a rank-1 6x6 frame at scale 1e-6)
+            if c['field'] == 'real':
+                F = th.reshape(K, d, r)
+            else:
+                t = th.reshape(K, 2, d, r)
+                F = t[:, 0] + 1j * t[:, 1]
+            sv = np.linalg.svd(F, compute_uv=False)
+            k = np.full(K, float(d))
+            with np.errstate(divide='ignore', invalid='ignore'):
+                k[~(sv[:, -1] / sv[:, 0] > 1e-6)] = np.inf
+            return k
         if m == 'euler':
             return np.full(K, float(th.shape[1] + 1))
         a = np.sqrt(2) * np.linalg.norm(th, axis=1)
